@@ -31,6 +31,7 @@ ASSUMPTIONS = [
 ]
 
 N_LEN = 4
+RECORDED_ONLY = False  # see vf/known.py (C08-cleared-then-inplace-rehomed-input)
 
 
 class Sim:
@@ -145,7 +146,13 @@ def oracle(sim, after, quiescent=False):
         ok = all([intact(v) for v in op.variables])
         seen[id(op)] = ok
         if ok:
-            for a in [t.data] + [v.data for v in op.variables]:
+            arrs = [t.data] + [v.data for v in op.variables]
+            rec_ = sim.op_arrays.get(id(op))
+            if RECORDED_ONLY and rec_ is not None and rec_[0]() is op:
+                # (only for the known-finding predicate) the arrays the op was actually called on and produced,
+                # not the current data of its - possibly re-homed - tensors
+                arrs = list(rec_[1])
+            for a in arrs:
                 for x in (a, a.base):
                     if isinstance(x, np.ndarray):
                         intact_required.add(id(x))
@@ -331,8 +338,11 @@ def _step(sim, s):
         t = _get(sim, s["t"])
         try:
             t.backward()
-        except mg.errors.InvalidBackprop:
-            raise _Expected()  # overlapping graphs: a legitimate refusal (C09's subject)
+        except (mg.errors.InvalidBackprop, RecursionError):
+            # overlapping graphs: a refusal (C09's subject).  RecursionError is the form the recorded finding
+            # C09-cleared-tensor-reused-or-mutated takes when a cleared tensor is updated in place with a value
+            # computed from it (cyclic graph); it is raised before anything is released, and is not this property's.
+            raise _Expected()
     elif k == "clear":
         _get(sim, s["t"]).clear_graph()
     elif k == "drop":
@@ -383,10 +393,13 @@ def cases(draw, tier="quick"):
     kinds = {}  # handle -> ("arr"|"view"|"tensor", length, is_float_tensor_nonconst)
     nh = [0]
 
-    def new(kind, length, extra=None):
+    root = {}  # handle -> handle of the array that owns its memory (op results own theirs)
+
+    def new(kind, length, extra=None, of=None):
         h = nh[0]
         nh[0] += 1
         kinds[h] = (kind, length, extra)
+        root[h] = root.get(of, h) if of is not None else h
         return h
 
     def live(pred):
@@ -396,6 +409,18 @@ def cases(draw, tier="quick"):
     for _ in range(draw(st.integers(1, 2))):
         h = new("arr", N_LEN)
         stmts.append({"k": "arr", "h": h, "n": N_LEN, "ro": draw(st.integers(0, 5)) == 0, "off": draw(st.integers(1, 9)) / 4})
+    used_roots = set()  # roots some op has (probably) locked by now
+
+    def early_view(src):
+        # a NumPy view taken before anything is locked stays natively writeable while its owner is guarded: the
+        # interesting out= target / operand
+        sl = draw(st.sampled_from([[None, None, None], [None, None, None], [None, None, -1], [1, None, None], [None, None, 2]]))
+        h = new("view", len(range(*slice(*sl).indices(N_LEN))), of=src)
+        stmts.append({"k": "npview", "h": h, "of": src, "sl": sl})
+
+    for h0 in list(kinds):
+        if draw(st.booleans()):
+            early_view(h0)
     nsteps = draw(st.integers(3, 28 if tier == "quick" else 45))
     for _ in range(nsteps):
         choice = draw(st.sampled_from(["arr", "npview", "tensor", "tensor", "op", "op", "op", "op", "op", "setitem", "fail",
@@ -405,6 +430,8 @@ def cases(draw, tier="quick"):
         if choice == "arr":
             h = new("arr", N_LEN)
             stmts.append({"k": "arr", "h": h, "n": N_LEN, "ro": draw(st.integers(0, 5)) == 0, "off": draw(st.integers(1, 9)) / 4})
+            if draw(st.booleans()):
+                early_view(h)
         elif choice == "npview" and arrs:
             src = draw(st.sampled_from(arrs))
             L = kinds[src][1]
@@ -412,17 +439,17 @@ def cases(draw, tier="quick"):
                 continue
             sl = draw(st.sampled_from([[None, None, 2], [1, None, None], [None, L - 1, None], [None, None, -1], [None, None, None]]))
             newlen = len(range(*slice(*sl).indices(L)))
-            h = new("view", newlen)
+            h = new("view", newlen, of=src)
             stmts.append({"k": "npview", "h": h, "of": src, "sl": sl})
         elif choice == "tensor" and arrs:
             src = draw(st.sampled_from(arrs))
-            h = new("tensor", kinds[src][1], "1d")
+            h = new("tensor", kinds[src][1], "1d", of=src)
             stmts.append({"k": "tensor", "h": h, "of": src, "constant": draw(st.sampled_from([None, True, False]))})
         elif choice == "op":
             pool = [h for h in arrs + tens if kinds[h][2] in (None, "1d")]
             if not pool:
                 continue
-            name = draw(st.sampled_from(["neg", "add", "add", "mul_op", "addseq", "slice", "reshape", "add_out", "exp_where", "sum"]))
+            name = draw(st.sampled_from(["neg", "add", "add", "mul_op", "addseq", "slice", "reshape", "add_out", "add_out", "exp_where", "sum"]))
             a = draw(st.sampled_from(pool))
             L = kinds[a][1]
             same = [h for h in pool if kinds[h][1] == L]
@@ -453,19 +480,31 @@ def cases(draw, tier="quick"):
                     continue
                 sl = draw(st.sampled_from([[None, None, 2], [1, None, None], [None, None, -1], [None, None, None]]))
                 newlen = len(range(*slice(*sl).indices(L)))
-                h = new("tensor", newlen, "1d")
+                h = new("tensor", newlen, "1d", of=a)
                 stmts.append({"k": "op", "h": h, "name": name, "args": [a], "sl": sl})
             elif name == "reshape":
-                h = new("tensor", L, "2d")
+                h = new("tensor", L, "2d", of=a)
                 stmts.append({"k": "op", "h": h, "name": name, "args": [a]})
             else:  # add_out
                 outs = [h for h in same if kinds[h][0] in ("arr", "view", "tensor")]
-                o = draw(st.sampled_from(outs))
+                vouts = [h for h in outs if kinds[h][0] == "view"]
+                hot = [h for h in vouts if root.get(h) in used_roots]  # views of a buffer another graph guards
+                o = draw(st.sampled_from(hot if hot and draw(st.booleans()) else (vouts if vouts and draw(st.booleans()) else outs)))
+                if draw(st.booleans()):
+                    # operands that do not live in the target's buffer: the op's only tie to that buffer is out=
+                    other = [h for h in same if root.get(h) != root.get(o)]
+                    if other:
+                        a = draw(st.sampled_from(other))
+                        same = other
                 b2 = draw(st.sampled_from(same + [None]))
                 args = [a, b2 if b2 is not None else {"lit": 3.0}]
-                h = new("tensor", L, "1d") if kinds[o][0] != "tensor" else None
+                h = new("tensor", L, "1d", of=o) if kinds[o][0] != "tensor" else None
                 st_ = {"k": "op", "h": h if h is not None else -1, "name": name, "args": args, "out": o}
                 stmts.append(st_)
+            if stmts and stmts[-1]["k"] == "op":
+                for x in stmts[-1]["args"]:
+                    if isinstance(x, int):
+                        used_roots.add(root.get(x))
         elif choice == "setitem" and tens:
             t = draw(st.sampled_from([h for h in tens if kinds[h][2] == "1d"] or tens))
             if kinds[t][2] != "1d" or kinds[t][1] < 1:
@@ -507,6 +546,8 @@ def classify(case):
                         nontrivial = True
             if s["name"] == "add_out":
                 labels.add("out_target")
+                if kinds.get(s["out"]) == "npview":
+                    labels.add("out_target_is_numpy_view")
                 nontrivial = True
             labels.add("op_" + s["name"])
         if s["k"] == "fail":
